@@ -111,6 +111,12 @@ func runC07(p *core.Program, r *core.Report) {
 	// handed to the writer (C01.R5: hand-over on every path, emptiness tested after the last rendering of the iteration)
 	chainRules(p, r, "R8", "C01", []string{"C01.R5"}, "a non-empty file is always handed to the writer, emptiness is tested after the last rendering")
 	c07R9(p, r, pl)
+	// R10: "only files inside the packages it processes": the directory the writer joins the file name onto is the
+	// package's own, derived from the module's Dir and the package path (C13.R6)
+	chainRules(p, r, "R10", "C13", []string{"C13.R6"}, "the directory a file is written to is the processed package's own")
+	// R11: "a generator's file exists iff that generator rendered something": what was rendered is never taken back
+	// out of the body before the write (C01.R10)
+	chainRules(p, r, "R11", "C01", []string{"C01.R10"}, "the body of a file only grows until it is written")
 }
 
 var filenameFormat = regexp.MustCompile(`^%s\.%s\.go$`)
